@@ -751,7 +751,7 @@ fn run(ctx: &mut Ctx) {
     let t = ctx.tier;
     let mut r = ctx.rng(10);
     // exhaustive over call kinds up to length 3 (payloads per position from the seed), several payload draws each
-    let reps = t.pick(6, 40);
+    let reps = t.pick(20, 100);
     let total = crate::gen::count_upto(KINDS as u64, 3);
     let mut digits = Vec::new();
     let mut i = ctx.shard as u64;
@@ -803,7 +803,7 @@ fn run(ctx: &mut Ctx) {
     }
     ctx.exhaustive("every payload of the hostile pool alone in every payload position (text, CDATA, each attribute constructor, comment, PI, element writer)");
     // random longer sequences
-    let n = ctx.scaled(t.pick(150_000, 3_000_000)) / ctx.nshards as u64;
+    let n = ctx.scaled(t.pick(800_000, 8_000_000)) / ctx.nshards as u64;
     let maxlen = t.pick(6, 12);
     for _ in 0..n {
         let len = 1 + r.below(maxlen);
